@@ -149,7 +149,7 @@ class Screen:
         self.pending_wrap = False
         self.clamps = 0  # cursor-up that hit the window top
         self.bells = 0
-        self.min_row_seen = 0
+        self.low_water = 0  # lowest row index the cursor reached since the caller last reset it
         self.scrolled_rows = 0
 
     def _newline(self):
@@ -200,6 +200,8 @@ class Screen:
                 self.clamps += 1
                 nr = self.top
             self.row = nr
+            if nr < self.low_water:
+                self.low_water = nr
             self.pending_wrap = False
         elif final == "K" and params == "2":
             self.rows[self.row] = []
@@ -210,6 +212,8 @@ class Screen:
                 self.rows[r] = []
         elif final == "H" and params == "":
             self.row = self.top
+            if self.row < self.low_water:
+                self.low_water = self.row
             self.col = 0
             self.pending_wrap = False
         else:
@@ -256,6 +260,12 @@ class Screen:
     def text(self):
         out = [self.line_text(r) for r in range(len(self.rows))]
         while out and out[-1] == "":
+            out.pop()
+        return out
+
+    def all_cells(self):
+        out = [self.cells(r) for r in range(len(self.rows))]
+        while out and not out[-1]:
             out.pop()
         return out
 
